@@ -102,6 +102,7 @@ func constStringsIn(fn *ssa.Function) []string {
 
 func runC11(c *an.Ctx) {
 	p := c.P
+	ruleJ5(c)
 	// ---------------- J1 ----------------
 	repl := globalInitCall(p, pkgCore, "encodeJournalName")
 	reCall := globalInitCall(p, pkgCore, "jobJournalRe")
